@@ -1,6 +1,7 @@
 (* C03 -- labelled outputs name every number correctly (Dataset and DataFrame). *)
 From XV Require Import Prelude Grid Perm Runner Flow Label GenRunner BridgeRunner
      LabelFlow GenLabel BridgeLabel GridProofs PermProofs RunnerProofs LabelProofs.
+From XV Require Farmer GenFarmer BridgeFarmer.
 Open Scope Z_scope.
 
 (* DataFrame: one row per evaluated setting, each row pairing that setting's argument values
@@ -114,6 +115,13 @@ Proof.
   split; [intros; apply bridge_run|]. split; [exact (proj1 bridge_flags)|]. split; [exact bridge_label_flow|exact bridge_prologue].
 Qed.
 
+(* the direct routes Runner.run_combos / run_cases hand the runner's description and the caller's fn_args
+   (which win over the runner's own) to the builders; cases are parsed against that order (GenFarmer) *)
+Theorem C03_direct_route_wiring :
+  GenFarmer.gen_run_cases_call = Farmer.model_run_combos_call /\ GenFarmer.gen_run_combos_call = Farmer.model_run_combos_call.
+Proof. exact (conj BridgeFarmer.bridge_run_cases BridgeFarmer.bridge_run_combos). Qed.
+
+Print Assumptions C03_direct_route_wiring.
 Print Assumptions C03_df_rows.
 Print Assumptions C03_df_no_resources.
 Print Assumptions C03_ds_single_var.
